@@ -57,7 +57,10 @@ func (c *MustacheTokenizer) ReadNextToken() *tokenizers.Token {
 	}
 
 	// Check for initial state
-	if c.NextTokenValue == nil && c.LastTokenType == tokenizers.Unknown {
+	// A freshly set reader has not produced a token yet and nothing was read from it
+	// (an Unknown token in the middle of a tag also leaves LastTokenType at Unknown)
+	if c.NextTokenValue == nil && c.LastTokenType == tokenizers.Unknown &&
+		c.Scanner.Line() == 1 && c.Scanner.Column() == 0 {
 		c.special = true
 	}
 
